@@ -256,6 +256,29 @@ Proof.
 Qed.
 
 (* ------------------------------------------------------------------ *)
+(* the headline statements over histories with arbitrary spellings     *)
+(* ------------------------------------------------------------------ *)
+
+(* C01: conservation in every state reached by messages in any spelling *)
+Theorem reachable_sp_conservation g s :
+  Inv_run g -> reaches_sp g s ->
+  forall bk ba su, batches s !! bk = Some ba -> supplies s !! bk = Some su ->
+    U (su_tradable su) = bal_sum tradable_escrowed bk (balances s) + bb_sum (ba_denom ba) (basket_balances s) /\
+    U (su_retired su) = bal_sum retired_of bk (balances s).
+Proof. intros Hg Hr. destruct (reaches_sp_preserves_run g s Hg Hr) as [(Hc & _) _]. apply Hc. Qed.
+
+(* C04: retired balances and retired / cancelled supplies never decrease along such a history *)
+Theorem reachable_sp_monotone g s1 s2 : Inv_run g -> reaches_sp g s1 -> reaches_sp s1 s2 -> mono_rel s1 s2.
+Proof.
+  intros Hg H1 H2. destruct (reaches_sp_preserves_run g s1 Hg H1) as [Hs1 _].
+  apply (reaches_sp_preserves_run s1 s2 Hs1 H2).
+Qed.
+
+(* C06: escrow equals open sell orders in every such state *)
+Theorem reachable_sp_escrow g s : Inv_run g -> reaches_sp g s -> Inv_escrow s.
+Proof. intros Hg Hr. apply run_escrow. apply (reaches_sp_preserves_run g s Hg Hr). Qed.
+
+(* ------------------------------------------------------------------ *)
 (* the premises are met                                                *)
 (* ------------------------------------------------------------------ *)
 
